@@ -110,6 +110,8 @@ def input_cause(case):
     used = [d for d in decl if d["usage"]]
     if any(R(d["file"]) and os.path.normpath(R(d["file"])) != R(d["file"]) or "*" in R(d["file"]) for d in used):
         return "file-part-spelled-unnormalised-or-glob"
+    if any(d.get("rep") == "loop" for d in used):
+        return "reference-to-dowhile-placeholder"
     if any(d["kind"] == "out" and not R(d["file"]) for d in used):
         return "output-without-file-part"
     if any(d["kind"] == "out" and R(d["file"]) != "out.txt" for d in used):
@@ -153,7 +155,15 @@ class Runner:
             if pinfo[(u["st"], R(u["name"]))] != (u.get("rep", "no"), u.get("last", 0)):
                 raise MachineryError("universe of Subst.tla describes producer %s inconsistently" % R(u["name"]))
         comps = []
+        loops = [(st, nm) for st, nm in producers if pinfo[(st, nm)][0] == "loop"]
+        if len(loops) > 1:
+            raise MachineryError("at most one DoWhile placeholder per universe is supported by the driver")
         for st, nm in producers:
+            if pinfo[(st, nm)][0] == "loop":
+                # the producer is a DoWhile: a seed component, the loop document and its $import
+                comps.append(sc("Generate", st, args="seed"))
+                comps.append({"stage": st, "$import": "dowhile.yaml", "name": "loop", "bindings": {"seed": "stage%d.Generate:ref" % st}})
+                continue
             extra = {"workflowAttributes": {"repeatInterval": 1}} if pinfo[(st, nm)][0] == "yes" else {}
             comps.append(sc(nm, st, args="produce", **extra))
         pnames = sorted(set(nm for _, nm in producers))
@@ -189,7 +199,10 @@ class Runner:
         self.nexp += 1
         os.makedirs(loc)
         try:
-            exp = self.realenv.experiment_from_flowir(doc, loc, validate=False, platform="plat" if via == "override" else None)
+            if loops:
+                exp = self.loop_experiment(doc, loc, loops[0], pinfo[loops[0]][1])
+            else:
+                exp = self.realenv.experiment_from_flowir(doc, loc, validate=False, platform="plat" if via == "override" else None)
         except Exception as e:
             if len(cases) == 1:
                 self.judge_load_failure(universe, cases[0], e)
@@ -204,10 +217,14 @@ class Runner:
         inst = exp.instanceDirectory.location
         values = {}
         for st, nm in producers:
-            d = os.path.join(inst, "stages", "stage%d" % st, nm)
-            node = exp.graph.nodes["stage%d.%s" % (st, nm)]
-            if os.path.normpath(node["componentInstance"].directory) != os.path.normpath(d):
-                raise MachineryError("working directory convention changed: %s vs %s" % (node["componentInstance"].directory, d))
+            # (a placeholder stands for its latest iteration <N>#<name>)
+            eff = nm if pinfo[(st, nm)][0] != "loop" else "%d#%s" % (pinfo[(st, nm)][1], nm)
+            d = os.path.join(inst, "stages", "stage%d" % st, eff)
+            node = exp.graph.nodes["stage%d.%s" % (st, eff)]
+            real_dir = node["componentInstance"].directory if "componentInstance" in node else \
+                exp.instanceDirectory.workingDirectoryForComponent(st, eff)      # (a fresh loop iteration has no Job yet)
+            if os.path.normpath(real_dir) != os.path.normpath(d):
+                raise MachineryError("working directory convention changed: %s vs %s" % (real_dir, d))
             os.makedirs(os.path.join(d, "sub"), exist_ok=True)
             os.makedirs(os.path.join(d, "outputs"), exist_ok=True)
             quoted = [R(u["quotes"]) for u in universe if u["kind"] == "out" and u.get("quotes") and (u["st"], R(u["name"])) == (st, nm)]
@@ -216,7 +233,17 @@ class Runner:
                     f.write(quoted[0].encode() if (quoted and rel == "out.txt") else file_bytes(st, nm, rel))
             # stdout: out.stdout of a producer that has run; streams/<n>.stdout (the five newest) of a repeating one
             repeating, last = pinfo[(st, nm)]
-            if repeating == "yes":
+            if repeating == "loop":
+                # every iteration has its own files; the values are those of the latest one
+                for k in range(last + 1):
+                    dk = os.path.join(inst, "stages", "stage%d" % st, "%d#%s" % (k, nm))
+                    os.makedirs(os.path.join(dk, "sub"), exist_ok=True)
+                    for rel in PRODUCER_FILES:
+                        with open(os.path.join(dk, rel), "wb") as f:
+                            f.write(file_bytes(st, "%d#%s" % (k, nm), rel))
+                    with open(os.path.join(dk, "out.stdout"), "w") as f:
+                        f.write(stdout_of(st, "%d#%s" % (k, nm), None) + "\n")
+            elif repeating == "yes":
                 if last >= 0:
                     os.makedirs(os.path.join(d, "streams"), exist_ok=True)
                     for n in range(max(0, last - 4), last + 1):
@@ -236,6 +263,8 @@ class Runner:
             if u["kind"] == "ref":
                 valmap[u["val"]] = os.path.join(d, fpart) if fpart else d
                 valnorm[u["val"]] = os.path.normpath(valmap[u["val"]])
+            elif u["kind"] == "out" and not fpart and pinfo[(st, nm)][0] == "loop":
+                valmap[u["val"]] = valnorm[u["val"]] = stdout_of(st, "%d#%s" % (pinfo[(st, nm)][1], nm), None)
             elif u["kind"] == "out" and not fpart:
                 repeating, last = pinfo[(st, nm)]
                 # the stdout of the producer (of its most recent repetition); nothing there yet -> the empty text
@@ -243,7 +272,8 @@ class Runner:
             elif u["kind"] == "out":
                 target = os.path.normpath(os.path.join(d, fpart.replace("out.tx*", "out.txt")))   # the one file the glob matches
                 rel = os.path.relpath(target, d)
-                valmap[u["val"]] = valnorm[u["val"]] = output_value(file_bytes(st, nm, rel))   # (a quoting value is spelled out by the spec)
+                eff = nm if pinfo[(st, nm)][0] != "loop" else "%d#%s" % (pinfo[(st, nm)][1], nm)
+                valmap[u["val"]] = valnorm[u["val"]] = output_value(file_bytes(st, eff, rel))   # (a quoting value is spelled out by the spec)
             else:
                 valmap[u["val"]] = valnorm[u["val"]] = None
         self.valnorm = valnorm
@@ -252,6 +282,32 @@ class Runner:
         self.chk.trace_validated()
         shutil.rmtree(inst, ignore_errors=True)
         shutil.rmtree(loc, ignore_errors=True)
+
+    def loop_experiment(self, doc, loc, loop, latest):
+        """a package whose producer <loop> is a DoWhile (conf/dowhile.yaml + $import), instantiated up to iteration <latest>"""
+        import yaml
+        import experiment.model.data
+        import experiment.model.storage
+        st, nm = loop
+        dowhile = {"type": "DoWhile", "inputBindings": {"seed": {"type": "ref"}}, "loopBindings": {"seed": "%s:ref" % nm},
+                   "condition": "%s/next:output" % nm,
+                   "components": [{"name": nm, "command": {"executable": "echo", "arguments": "seed:ref"}, "references": ["seed:ref"]}]}
+        pk = os.path.join(loc, "loop.package")
+        os.makedirs(os.path.join(pk, "conf"))
+        with open(os.path.join(pk, "conf", "dowhile.yaml"), "w") as f:
+            yaml.safe_dump(dowhile, f, sort_keys=False)
+        with open(os.path.join(pk, "conf", "flowir_package.yaml"), "w") as f:
+            yaml.safe_dump(doc, f, sort_keys=False)
+        pkg = experiment.model.storage.ExperimentPackage.packageFromLocation(pk)
+        inst = experiment.model.storage.ExperimentInstanceDirectory.newInstanceDirectory(loc, package=pkg)
+        exp = experiment.model.data.Experiment(inst, is_instance=True)
+        wg = exp.experimentGraph
+        document = list(wg._documents["DoWhile"].values())[0]["document"]
+        for k in range(1, latest + 1):
+            wg.instantiate_dowhile_next_iteration(document, k, True)
+        if wg._placeholders["stage%d.%s" % (st, nm)]["latest"] != "stage%d.%d#%s" % (st, latest, nm):
+            raise MachineryError("the DoWhile placeholder of the harness is not at iteration %d: %s" % (latest, wg._placeholders))
+        return exp
 
     def render(self, tokens, valmap, inst_short=None):
         return "".join(valmap[t] if t in valmap else t for t in tokens)
@@ -355,7 +411,9 @@ def run(tier):
                 ("RefUContents", 2, ("plain", "opt"), False, False),
                 ("RefUPaths", 2, ("plain", "path"), False, False),
                 ("RefUQuick", 2, ("plain",), False, False, ("variable", "override")),
-                ("RefUStdout", 2, ("plain", "opt"), False, False)]
+                ("RefUStdout", 2, ("plain", "opt"), False, False),
+                ("RefULoop2", 2, ("plain", "opt"), False, False),
+                ("RefULoop0", 2, ("plain",), False, False)]
     else:
         fams = [("RefUQuick", 2, ("plain", "opt", "path"), True, True),
                 ("RefUSix", 3, ("plain",), True, False),
@@ -371,7 +429,10 @@ def run(tier):
                 ("RefUQuick", 2, ("plain", "opt"), False, False, ("override",)),
                 ("RefUThree", 3, ("plain",), False, False, ("variable",)),
                 ("RefUStdout", 2, ("plain", "opt"), True, False),
-                ("RefUStdout", 2, ("plain",), False, False, ("variable", "override"))]
+                ("RefUStdout", 2, ("plain",), False, False, ("variable", "override")),
+                ("RefULoop2", 2, ("plain", "opt", "path"), True, False),
+                ("RefULoop1", 3, ("plain",), False, False),
+                ("RefULoop0", 2, ("plain", "opt"), False, False)]
     runner = Runner(chk)
     total = 0
     for k, fam in enumerate(fams):
@@ -395,7 +456,7 @@ def run(tier):
                 raise MachineryError("TLC finds no input on which sequential replacement differs from exact substitution: %s" % rd["out"][-800:])
         uni = [d for d in res["cases"] if d.get("t") == "universe"]
         cases = [d for d in res["cases"] if d.get("t") == "case"]
-        if not uni or len(cases) < 50:
+        if not uni or len(cases) < 40:
             raise MachineryError("TLC emitted %d cases for family %d" % (len(cases), k))
         universe = uni[0]["refs"]
         # vacuity guard: every action of the spec was taken (a resolved state exists only after Declare and Resolve; the
@@ -437,7 +498,7 @@ def run(tier):
                        "(names A, BA, B-A, x.A, AB, A0 in stages 0 and 1; :ref, file :ref, :output, :copy; file parts spelled with a trailing "
                        "slash, ./, //, .., globs; :output files with trailing newlines, CRLF, CR, tabs, non-ASCII, undecodable bytes, "
                        "empty, inner newlines, blanks; name:output of plain and repeating producers with 0..100 repetitions or none; declarations "
-                       "reaching the graph rewritten by the loader, through a %(variable)s or through override.<platform>), usage (relative / absolute "
+                       "placeholder of a DoWhile producer at iteration 0..2; declarations reaching the graph rewritten by the loader, through a %(variable)s or through override.<platform>), usage (relative / absolute "
                        "/ both / twice), style of the command line, plus unused / undeclared faults; every case is a consumer "
                        "component of a real instantiated experiment; traces = experiments built")
     chk.cov["exhaustive"] = True
